@@ -3,7 +3,7 @@
    stay the extracted inductive types. *)
 From Coq Require Import Extraction ExtrOcamlBasic.
 From Wencry Require Import Bytes AesSpec AesModel ModesSpec ModesModel HashSpec HashModel
-     Base64Spec Base64Model FileModel FileSpec PipeConc CliModel SrcRun SrcRun2 SrcRun3 SrcRun4 SrcRun5 SrcRun6 CliConc.
+     Base64Spec Base64Model FileModel FileSpec PipeConc CliModel SrcRun SrcRun2 SrcRun3 SrcRun4 SrcRun5 SrcRun6 CliConc RefineConcSim.
 Extraction Language OCaml.
 Set Extraction Optimize.
 Extraction "model.ml"
@@ -23,5 +23,5 @@ Extraction "model.ml"
   SrcRun2.src_hmac SrcRun2.src_cmphmac SrcRun2.src_verify SrcRun2.src_header SrcRun2.src_mode_factory
   CliConc.src_cli_parse CliConc.cli_parse CliConc.abs_pak
   SrcRun5.src_encrypt_file SrcRun5.src_decrypt_file SrcRun5.src_verify_file SrcRun5.src_history SrcRun5.src_encrypt_snapshots SrcRun6.src_main
-  SrcRun4.conc_src_run SrcRun4.conc_output SrcRun4.all_done MiniCConc.enabled_count
+  RefineConcSim.sim_run_full SrcRun4.conc_src_run SrcRun4.conc_output SrcRun4.all_done MiniCConc.enabled_count
   PipeConc.tag_run PipeConc.tag_tr PipeConc.tag_event PipeConc.terminal PipeConc.output PipeConc.crashed PipeConc.enabled_count.
